@@ -78,10 +78,15 @@ def run(tier: str) -> int:
                       "expected status and number of innermost block executions); rendered sync and async; distinct = distinct "
                       "(program, limit); non-trivial = depth>=2") % ("3" if tier == "quick" else "4")
     from ..tlcrun import run_many
-    rs = run_many([("LoopNest", f"cfg/LoopNest_{tier}.cfg", dict(workers=1, timeout=3000)),
-                   ("LoopNest", f"cfg/LoopNest_{tier}_sib.cfg", dict(workers=1, timeout=3000))])
+    jobs = [("LoopNest", f"cfg/LoopNest_{tier}.cfg", dict(workers=1, timeout=7000)),
+            ("LoopNest", f"cfg/LoopNest_{tier}_sib.cfg", dict(workers=1, timeout=7000))]
+    names = [tier, tier + "_sib"]
+    if tier == "thorough":      # depth 4 runs over lengths {0,2,3}; the full length set at depth 3 comes from the quick configuration
+        jobs.append(("LoopNest", "cfg/LoopNest_quick.cfg", dict(workers=1, timeout=7000)))
+        names.append("quick(depth 3, all lengths)")
+    rs = run_many(jobs)
     cases = []
-    for name, r in zip((tier, tier + "_sib"), rs):
+    for name, r in zip(names, rs):
         ck.tlc("LoopNest_" + name, r)
         if r.violated:
             ck.fail(f"LoopNest.tla invariant {r.violated} violated in the model", {"tlc": r.out[-3000:]})
